@@ -181,7 +181,7 @@ EventuallyAcquired == \A r \in Requests : <>(pc[r] \in {"Release", "Release2", "
 \* key-set families used by the cfgs
 AllKeySets   == SUBSET Keys
 SmallKeySets == SUBSET {"A", "B", "D", "E"}
-QuickKeySets == (SUBSET {"A", "B", "D"}) \cup {{"E"}, {"E", "B"}}
+QuickKeySets == {{}, {"A"}, {"B"}, {"A", "B"}, {"A", "D"}, {"B", "D"}, {"E"}, {"E", "B"}}
 PlainKeySets == SUBSET {"A", "B", "C"}
 TwoKeySets   == SUBSET {"A", "B"}
 Gen2KeySets  == (SUBSET {"A", "B", "C"}) \cup {{"D"}, {"A", "D"}, {"E"}, {"E", "B"}}
